@@ -145,14 +145,18 @@ func digestRecs(recs []rec) uint64 {
 
 const snapMagic = "RSNP"
 
-func encodeSMSnapshot(recs []rec, digestOnly bool) []byte {
-	out := make([]byte, 0, 32+len(recs)*32)
+// The snapshot names its producer (node, incarnation) so that the storage gate
+// can tell a local compaction snapshot from one received from a leader.
+func encodeSMSnapshot(recs []rec, digestOnly bool, node int, inc int64) []byte {
+	out := make([]byte, 0, 40+len(recs)*32)
 	out = append(out, snapMagic...)
 	if digestOnly {
 		out = append(out, 1)
 	} else {
 		out = append(out, 0)
 	}
+	out = binary.BigEndian.AppendUint32(out, uint32(node))
+	out = binary.BigEndian.AppendUint32(out, uint32(inc))
 	var last uint64
 	if len(recs) > 0 {
 		last = recs[len(recs)-1].index
@@ -173,6 +177,8 @@ func encodeSMSnapshot(recs []rec, digestOnly bool) []byte {
 
 type smSnapshot struct {
 	digestOnly bool
+	node       int
+	inc        int64
 	last       uint64
 	count      uint64
 	digest     uint64
@@ -181,10 +187,13 @@ type smSnapshot struct {
 
 func decodeSMSnapshot(b []byte) (smSnapshot, error) {
 	var s smSnapshot
-	if len(b) < 4+1+24 || string(b[:4]) != snapMagic {
+	if len(b) < 4+1+8+24 || string(b[:4]) != snapMagic {
 		return s, fmt.Errorf("bad SM snapshot header (len %d)", len(b))
 	}
 	s.digestOnly = b[4] == 1
+	s.node = int(binary.BigEndian.Uint32(b[5:9]))
+	s.inc = int64(binary.BigEndian.Uint32(b[9:13]))
+	b = b[8:]
 	s.last = binary.BigEndian.Uint64(b[5:13])
 	s.count = binary.BigEndian.Uint64(b[13:21])
 	s.digest = binary.BigEndian.Uint64(b[21:29])
@@ -268,9 +277,6 @@ type replica struct {
 	sm   *smState
 	gate *gateStore
 	core *smCore
-	// the state machine produced a snapshot that has not been saved yet
-	// (distinguishes local compaction from a snapshot received from a leader)
-	localSnapPending bool
 }
 
 func (rp *replica) name() string { return fmt.Sprintf("n%d/s%d", rp.node.id, rp.slot) }
@@ -585,14 +591,10 @@ func (g *gateStore) Save(ctx context.Context, st multiraft.PersistentState) erro
 func (g *gateStore) checkSnapshotSave(ctx context.Context, st multiraft.PersistentState) {
 	w := g.w
 	idx := st.Snapshot.Metadata.Index
-	w.mu.Lock()
-	local := g.rep.localSnapPending
-	g.rep.localSnapPending = false
-	w.mu.Unlock()
-	if !local {
-		return
-	}
 	snap, err := decodeSMSnapshot(stripSlotEnvelope(st.Snapshot.Data))
+	if err == nil && (snap.node != g.rep.node.id || snap.inc != g.inc) {
+		return // produced elsewhere: a snapshot received from a leader (checked in Restore)
+	}
 	w.mu.Lock()
 	defer w.mu.Unlock()
 	w.probeLocked("compaction.ran")
@@ -831,8 +833,7 @@ func (c *smCore) snapshot() (multiraft.Snapshot, error) {
 	c.w.mu.Lock()
 	defer c.w.mu.Unlock()
 	st := c.rep.sm
-	c.rep.localSnapPending = true
-	return multiraft.Snapshot{Index: st.last(), Data: encodeSMSnapshot(st.recs, c.w.cfg.SnapDigest)}, nil
+	return multiraft.Snapshot{Index: st.last(), Data: encodeSMSnapshot(st.recs, c.w.cfg.SnapDigest, c.rep.node.id, c.inc)}, nil
 }
 
 func (c *smCore) restore(snap multiraft.Snapshot) error {
@@ -1084,7 +1085,6 @@ func (w *world) startNode(n *node, first bool) error {
 			floor = snap.Metadata.Index
 		}
 		rp.core = &smCore{w: w, rep: rp, gate: rp.gate, inc: n.inc.Load(), durable: w.cfg.SMDurable, floor: floor, opening: true}
-		rp.localSnapPending = false
 		opts := multiraft.SlotOptions{ID: slot, Storage: rp.gate, StateMachine: rp.core.stateMachine(w.cfg.SMBatch, w.cfg.SMDurable)}
 		w.r.Logf("  open %s inc%d hs(t%d v%d c%d) applied%d snap%d smlast%d", rp.name(), n.inc.Load(), initial.HardState.Term, initial.HardState.Vote,
 			initial.HardState.Commit, initial.AppliedIndex, snap.Metadata.Index, rp.sm.last())
